@@ -74,11 +74,13 @@ PROPERTIES = {
     "C05": {
         "runs": {
             "quick": [H("HarnessC05a", b(K=2, K2=1, FMT=0, CACHE=0)), H("HarnessC05a", b(K=2, K2=1, FMT=1, CACHE=1)), H("HarnessC05a", b(K=2, K2=1, FMT=2, CACHE=0)), H("HarnessC05a", b(K=2, K2=1, FMT=1, CACHE=0)), H("HarnessC05a", b(K=2, K2=1, FMT=2, CACHE=1)), H("HarnessC05a", b(K=1, K2=2, FMT=0, CACHE=1)), H("HarnessC05a", b(K=2, K2=2, FMT=0, CACHE=1), sample_every=500),
+                      # values whose encoding may be empty (raw-bytes codec), decoded from the store
+                      H("HarnessC05e", b(N=3, CACHE=0)), H("HarnessC05e", b(N=3, CACHE=1, FRESHCACHE=1)),
                       H("HarnessC05a", b(N0=3, K=0, K2=1, FMT=0, CACHE=0), sample_every=50), H("HarnessC05a", b(N0=3, K=0, K2=1, FMT=0, CACHE=1), sample_every=50)],
             "thorough": [H("HarnessC05a", b(K=3, K2=1, FMT=f, CACHE=c), sample_every=200) for f in (0, 1, 2) for c in (0, 1)],
         },
         "must_reach": ["C05.reloaded.iter-seq", "C05.size", "C05.modified-reloaded-tree-persists-canonically", "C05.persist-and-reload-do-not-panic"],
-        "bounds_statement": "trees from <= K inserts/deletes, persisted and re-loaded, <= K2 further operations, persisted and re-loaded again; both node formats, both v1marshaler decode paths, cache on/off",
+        "bounds_statement": "trees from <= K inserts/deletes, persisted and re-loaded, <= K2 further operations, persisted and re-loaded again; both node formats, both v1marshaler decode paths, cache on/off; byte-slice values of length 0 or 1 under a raw-bytes codec (empty encodings)",
         "outside": ["JSON round trip of the Root record and the default JSON marshaler (encoding/json is not encodable)"],
         "assumptions": COMMON_ASSUMPTIONS,
     },
@@ -145,6 +147,8 @@ PROPERTIES = {
                      # scenario-directed: fixed operation sequences through a shared cache (0 insert, 1 delete, 2 persist+reload), keys/values/layers symbolic
                      [H("HarnessC04a", {**b(K=k, NOPS=3, CACHE=1), "SEQ.h": q}, sample_every=200) for k, q in ((6, 21020), (5, 2102), (7, 201020))] + [H("HarnessC04b", b(N=17, K=1, NOPS=2, Lmax=4, LRULER=1, CONCRETEKEYS=1), sample_every=10, max_steps=30000000)] +
                      # versions persisted after a failed and retried operation (the fault-injecting harness of C12)
+                     # v1marshaler nodes (read back through the harness marshaler's parser): same shape clauses
+                     [H("HarnessC04a", b(K=4, NOPS=3, FMT=1), sample_every=200)] + [H("HarnessC04b", b(N=5, K=1, NOPS=2, HREQ=2, LPAT=p, FMT=1), sample_every=10) for p in (18, 63)] +
                      # version branching: op 5 = persist and go back to the first persisted version (through the same cache), op 6 = persist and restart with an empty cache
                      [H("HarnessC04b", {**b(N=3, K=k, NOPS=7, CACHE=1), "SEQ.h": q}, sample_every=20) for k, q in ((3, 605), (3, 615), (4, 6015))] + [H("HarnessC04a", b(K=4, NOPS=7, CACHE=1), sample_every=200)] +
                      [H("HarnessC12a", b(N=3, PRE=0, F=3, OPMASK=3, NOPROBE=1), sample_every=100),
@@ -293,7 +297,9 @@ PROPERTIES = {
                      # middle leave nodes with spare array capacity as left siblings), then both goroutines delete
                      [H("HarnessC11a", b(N=4, OPS=1, MODE=0, KINDS=4, HREQ=1, LPAT=10, MID=1), race=True, policy="rr", no_native=True, sample_every=50)] +
                      # after a "restart": the shared cache fills with nodes decoded from the store (not the writer's objects), in each node format
-                     [H("HarnessC11a", b(N=3, OPS=1, MODE=0, KINDS=15, HREQ=-1, FMT=f, FRESHCACHE=1), race=True, policy="rr", no_native=True, sample_every=200) for f in (0, 1, 2)],
+                     [H("HarnessC11a", b(N=3, OPS=1, MODE=0, KINDS=15, HREQ=-1, FMT=f, FRESHCACHE=1), race=True, policy="rr", no_native=True, sample_every=200) for f in (0, 1, 2)] +
+                     # two second-generation clones (clones of a clone of a loaded tree with one un-flushed modification)
+                     [H("HarnessC11a", b(N=2, OPS=1, MODE=3, KINDS=6, HREQ=-1), race=True, policy="rr", no_native=True, sample_every=500)],
             "thorough": [H("HarnessC11a", b(N=5, OPS=1, MODE=m, KINDS=12, HREQ=1, LPAT=28, MID=1), race=True, policy="rr", no_native=True, sample_every=1000) for m in (0, 1)] + [H("HarnessC11a", b(N=5, OPS=1, MODE=m, KINDS=14, HREQ=2, LPAT=p), race=True, policy=pol, no_native=True, sample_every=1000) for m in (0, 1) for p in (63, 57, 75) for pol in ("rr", "first", "last")] +
                         [H("HarnessC11a", b(N=3, OPS=1, MODE=m, KINDS=15, HREQ=-1), race=True, policy=pol, no_native=True, sample_every=1000) for m in (0, 1, 2) for pol in ("rr", "last")] +
                         [H("HarnessC11a", b(N=2, OPS=2, MODE=0, KINDS=10, HREQ=-1), race=True, policy="rr", no_native=True, sample_every=1000)] +
@@ -301,7 +307,7 @@ PROPERTIES = {
         },
         "extra_labels": ["data-race"],
         "must_reach": ["C11.g1.behaves-as-if-alone", "C11.g2.behaves-as-if-alone", "C11.g1.op-result"],
-        "bounds_statement": "two goroutines, each owning one tree (both loaded from one persisted root through one shared cache -- the writer's, or an empty one that fills by decoding, in each node format; a loaded tree and its clone; an in-memory tree and its clone) over a mutex-protected store and cache; base tree of N ascending entries (height 2 at N=5 for the listed layer patterns); OPS symbolic operations each (Get/Insert/Delete/MakeRoot) then a full Iter; every heap cell access is checked by a vector-clock happens-before detector; per-goroutine results compared with a sequential model",
+        "bounds_statement": "two goroutines, each owning one tree (both loaded from one persisted root through one shared cache -- the writer's, or an empty one that fills by decoding, in each node format; a loaded tree and its clone; an in-memory tree and its clone; two clones of a clone of a modified loaded tree) over a mutex-protected store and cache; base tree of N ascending entries (height 2 at N=5 for the listed layer patterns); OPS symbolic operations each (Get/Insert/Delete/MakeRoot) then a full Iter; every heap cell access is checked by a vector-clock happens-before detector; per-goroutine results compared with a sequential model",
         "outside": ["more than two goroutines or more than OPS operations each", "races inside the real ARC cache or the Go runtime", "interleavings are those of the listed deterministic scheduling policies (round-robin / run-to-block) plus context-bounded exploration where stated: a race is reported when two conflicting accesses are unordered by happens-before in an explored execution"],
         "assumptions": COMMON_ASSUMPTIONS + ["race = two accesses to one heap cell (struct field, slice element, variable), at least one a write, by different goroutines, unordered by the happens-before relation built from go statements, channel operations, Mutex, WaitGroup and Once (vector clocks)",
                                                 "race findings are confirmed natively with `go test -race` on the same harness and inputs when reported"],
